@@ -6,6 +6,38 @@ BASELINE = ("cmake -G Ninja -S /repo -B /repo/_build -DCMAKE_BUILD_TYPE=RelWithD
             "ctest --test-dir /repo/_build -j8 --timeout 900")
 
 CHECKS = {
+    'C07': dict(
+        text="Decides the algebraic clauses of the property over the reals, by exact symbolic evaluation of the function bodies "
+             "(polynomials with rational coefficients, every path): (G1) the constructor's _e2 = f(2-f), _e2m = 1-_e2; (G2) "
+             "Geocentric::IntForward is the closed form X = (N+h)cos(phi)cos(lam), Y = (N+h)cos(phi)sin(lam), Z = ((1-e2)N+h)sin(phi), "
+             "N = a/sqrt(1-e2 sin^2 phi); (G3) the matrix filled by Rotation is orthonormal with determinant +1 modulo s^2+c^2=1, its "
+             "third column is d(X,Y,Z)/dh, its first (-sin lam, cos lam, 0), its second up x east; (G4) Rotate and Unrotate apply M "
+             "and its transpose, each entry once; (G5) LocalCartesian::MatrixMultiply is Unrotate(_r) by columns; (G6) Reset stores "
+             "Rotation(lat0, lon0) and Forward(lat0, lon0, h0), IntForward maps the origin to 0, and IntForward o IntReverse is the "
+             "identity for that _r; (G7) the vector<real> overloads copy all nine entries. Plus the error clauses X1/X3/X4 for "
+             "the two classes. These hold for every input because they are polynomial identities.",
+        note="NOT decided: everything that involves rounding or the root selection of IntReverse - accuracy near the centre, on the "
+             "axis, in the singular disc, at astronomical distances, |lat| <= 90 and the least-magnitude height. A kernel that is "
+             "wrong over the reals is wrong in floating point; the converse is not claimed. Assumes A-UNITCIRCLE (the two results "
+             "of one sincosd call lie on the unit circle).",
+        technique="symbolic evaluation of the AST over exact polynomials (path-wise), polynomial identity checking modulo the "
+                  "unit-circle relations; CFG typestate for the error clauses",
+        ref="16"),
+    'C16': dict(
+        text="Decides, over the reals and for every path, the algebraic clauses of the primitives by exact symbolic evaluation: "
+             "(CONS) Math::sum returns s, t with s + t = u + v; AngNormalize(x) = x and AngDiff's d + e = y - x modulo 360; "
+             "Accumulator::Add, +=, -=, *= conserve _s + _t (Math::sum replaced by its contract in the callers, plain products read "
+             "as rounded and fma as exact in operator*=); (QUAD) for every quadrant count q = -4..7 sincosd, sincosde, sind, cosd "
+             "return the quarter-turn rotation of (sin, cos) of the reduced angle, the exact values at 30 and 45 degrees are on the "
+             "unit circle and sind/cosd agree with sincosd; (OCT) on every path of atan2d the arguments given to atan2 are a signed "
+             "permutation of (y, x) and the returned c +- atan2 is the angle of (x, y) modulo 360.",
+        note="NOT decided: anything about rounding - that t is the exact rounding error, ulp accuracy, correct rounding at "
+             "multiples of 30/45 degrees, signs of zero, the volatile guards, eatanhe/taupf/tauf, the accumulator's double-word "
+             "precision. These are necessary conditions: a kernel that loses a term or takes the wrong quadrant over the reals is "
+             "wrong in floating point.",
+        technique="symbolic evaluation of the AST over exact polynomials with period symbols for remainder, path forking on "
+                  "comparisons, contracts for callees; identity checking by Gaussian elimination over the path equalities",
+        ref="16"),
     'C14': dict(
         text="Effect analysis over the whole library: for every const or static member function of every class "
              "in the property's quantifier (and the closure of their member types) the transitive may-write "
@@ -206,8 +238,6 @@ CHECKS['C19'] = dict(
     ref="3.10, 4 (C19)")
 
 NOT_APPLICABLE = {
-    'C07': "numerical identities over R^3 (closed form, round trip, orthonormality); no clause is visible in the shape of the code. Constructor validation is decided under C13.",
-    'C16': "quantifies exhaustively over floating-point inputs; correctness of remquo reduction, two-sum and the accumulator is arithmetic, not code shape (the no-fast-math precondition is linted under C13).",
 }
 
 PENDING = ['C11', 'C19', 'C01', 'C02', 'C03', 'C04', 'C05', 'C06', 'C08', 'C09', 'C10', 'C12', 'C13', 'C15', 'C17', 'C18', 'C20']
